@@ -104,7 +104,10 @@ class Repo:
             return None
 
 class NotLiteral(Exception):
-    pass
+    """Raised when an expression cannot be folded; an AST node argument is rendered only when the message is needed."""
+    def __str__(self):
+        a = self.args[0] if self.args else ''
+        return ast.dump(a)[:80] if isinstance(a, ast.AST) else str(a)
 
 class _FoldedNone:
     """A folded call that legitimately returned None (hooks use None for 'not handled')."""
@@ -123,7 +126,8 @@ class Lit:
     builtins on literals, no attribute access). This is constant folding, not execution of repository code."""
     PURE = {'range': range, 'len': len, 'tuple': tuple, 'list': list, 'dict': dict, 'set': set, 'frozenset': frozenset,
             'min': min, 'max': max, 'sum': sum, 'abs': abs, 'int': int, 'str': str, 'bool': bool, 'chr': chr, 'ord': ord,
-            'bytes': bytes, 'bytearray': bytearray, 'sorted': sorted, 'enumerate': enumerate, 'zip': zip}
+            'bytes': bytes, 'bytearray': bytearray, 'sorted': sorted, 'enumerate': enumerate, 'zip': zip, 'any': any, 'all': all,
+            'reversed': reversed, 'divmod': divmod, 'round': round}
 
     def __init__(self, repo, modname, env=None, opaque=None):
         self.repo = repo
@@ -137,6 +141,8 @@ class Lit:
         if isinstance(n, ast.Name):
             if n.id in self.env:
                 return self.env[n.id]
+            if self.opaque is not None and n.id in getattr(self.opaque, 'override_names', ()):
+                return self._opaque(n)
             m, node = self.repo.resolve(self.modname, n.id)
             if node is not None:
                 return Lit(self.repo, m.name, opaque=self.opaque).ev(node)
@@ -242,7 +248,7 @@ class Lit:
                     base = self.ev(n.func.value)
                 except NotLiteral:
                     base = None
-                if isinstance(base, (list, dict, set, bytearray)) or getattr(base, '_sa_fold_ok', False):
+                if isinstance(base, (list, dict, set, bytearray)) or (getattr(base, '_sa_fold_ok', False) and hasattr(base, n.func.attr)):
                     args = [self.ev(a) for a in n.args]
                     return getattr(base, n.func.attr)(*args)
             return self._opaque(n)
@@ -306,7 +312,7 @@ class Lit:
                 return None
             if v is not None:
                 return v
-        raise NotLiteral(ast.dump(n)[:80])
+        raise NotLiteral(n)
 
 def _bind(target, value, env):
     if isinstance(target, ast.Name):
@@ -370,8 +376,13 @@ class ModuleFold:
         elif isinstance(st, ast.For):
             for item in self.lit().ev(st.iter):
                 _bind(st.target, item, self.env)
-                for s in st.body:
-                    self.stmt(s)
+                try:
+                    for s in st.body:
+                        self.stmt(s)
+                except _Continue:
+                    continue
+                except _Break:
+                    break
         elif isinstance(st, ast.If):
             for s in (st.body if self.lit().ev(st.test) else st.orelse):
                 self.stmt(s)
@@ -390,18 +401,25 @@ class ModuleFold:
                     self.store(item.optional_vars, v)
             for s in st.body:
                 self.stmt(s)
-        elif isinstance(st, (ast.Break, ast.Continue)):
-            raise NotLiteral('break/continue')
+        elif isinstance(st, ast.Break):
+            raise _Break()
+        elif isinstance(st, ast.Continue):
+            raise _Continue()
         elif isinstance(st, ast.Raise):
             name = ast.unparse(st.exc).split('(')[0] if st.exc is not None else 'ValueError'
             raise {'ValueError': ValueError, 'KeyError': KeyError, 'TypeError': TypeError, 'IndexError': IndexError}.get(name, ValueError)('raised by folded code')
         elif isinstance(st, ast.While):
             n = 0
             while self.lit().ev(st.test):
-                for s in st.body:
-                    self.stmt(s)
+                try:
+                    for s in st.body:
+                        self.stmt(s)
+                except _Continue:
+                    pass
+                except _Break:
+                    break
                 n += 1
-                if n > 100000:
+                if n > 1000000:
                     raise NotLiteral('loop bound')
         else:
             raise NotLiteral('statement ' + type(st).__name__)
@@ -429,6 +447,12 @@ class ModuleFold:
             setattr(base, tg.attr, v)
         else:
             raise NotLiteral('store target')
+
+class _Break(Exception):
+    pass
+
+class _Continue(Exception):
+    pass
 
 class _Return(Exception):
     def __init__(self, value):
